@@ -11,7 +11,7 @@ def cq(x):
         num, den = int(x[0]), int(x[1])
     else:
         num, den = float(x).as_integer_ratio()
-    return '(%s # %d)' % (C.cz(num), den)
+    return '(Qmake %s %d%%positive)' % (C.cz(num), den)
 
 
 def ratio(x):
